@@ -541,6 +541,14 @@ def _call_with(fn, obj, gopt, up=None):
     return lambda: fn(obj, *args, **kw)
 
 
+def _thunk(fn, obj, *args, **kw):
+    """the call `fn(obj, *args, **kw)`, to be made later (in a forked child); arrays are handed over as fresh copies"""
+    if isinstance(obj, np.ndarray) and type(obj) is np.ndarray and obj.flags.aligned and obj.flags.c_contiguous \
+            and obj.dtype == np.float64 and obj.flags.writeable:
+        return lambda: fn(obj.copy(), *args, **kw)
+    return lambda: fn(obj, *args, **kw)
+
+
 def _streams_float(ctx, impls, cases):
     """generated programs and entry model, run at IEEE doubles, against the real code"""
     from pyyeti.rainflow import py_rain
@@ -558,31 +566,30 @@ def _streams_float(ctx, impls, cases):
         finally:
             cyclecount.rain = old
 
-    greq, gwant = [], []     # generated driver
+    greq, gwant = [], []     # generated driver: request, (stream, tag, call to make on the real code)
     mreq, mwant = [], []     # model driver
 
     def vec_streams(x, tag, full):
         nd = _nd((len(x),), x)
         for g in (1, 0):
             greq.append("ge %d %s" % (g, nd))
-            gwant.append(("generated-py-entry", tag, _canon_any(lambda: py_rain.rainflow(x.copy(), bool(g)))))
+            gwant.append(("generated-py-entry", tag, _thunk(py_rain.rainflow, x, bool(g))))
         if len(x) >= 2:
             for which, name, g in (("2f", "cfast", True), ("1f", "cfast", False), ("2s", "cslow", True), ("1s", "cslow", False)):
                 if name in impls:
                     greq.append("gc %s %s" % (which, nd))
-                    gwant.append(("generated-c-" + which, tag, _canon_any(lambda: impls[name](x.copy(), g))))
+                    gwant.append(("generated-c-" + which, tag, _thunk(impls[name], x, g)))
         if full:
             for g in (1, 0):
                 for up in (1, 0):
                     greq.append("gw %d %d %s" % (g, up, nd))
-                    gwant.append(("generated-wrapper", tag, _canon_any(lambda: wrapper_over_py(x.copy(), bool(g), bool(up)))))
+                    gwant.append(("generated-wrapper", tag, _thunk(wrapper_over_py, x, bool(g), bool(up))))
             for name, fn in impls.items():
                 if name == "wrapper":
                     continue
                 for gtxt, gval in (("1", True), ("0", False), ("-", None)):
                     mreq.append("me %s %s 1 %s" % ("py" if name == "py" else "c", gtxt, nd))
-                    mwant.append(("entry-model-" + name, tag,
-                                  _canon_any((lambda: fn(x.copy())) if gval is None else (lambda: fn(x.copy(), gval)))))
+                    mwant.append(("entry-model-" + name, tag, _thunk(fn, x) if gval is None else _thunk(fn, x, gval)))
             for gtxt, gval in (("1", True), ("0", False), ("-", None)):
                 for utxt, uval in (("1", True), ("0", False), ("-", None)):
                     kw = {}
@@ -591,7 +598,7 @@ def _streams_float(ctx, impls, cases):
                     if uval is not None:
                         kw["use_pandas"] = uval
                     mreq.append("mw %d %s %s 1 %s" % (availc, gtxt, utxt, nd))
-                    mwant.append(("wrapper-model", tag, _canon_any(lambda: cyclecount.rainflow(x.copy(), **kw))))
+                    mwant.append(("wrapper-model", tag, _thunk(cyclecount.rainflow, x, **kw)))
 
     # (a) the integer/dyadic cases of the list-model streams (a sample of the exhaustive ones)
     for i, (seq, scale, style) in enumerate(cases):
@@ -630,13 +637,12 @@ def _streams_float(ctx, impls, cases):
                     if name == "wrapper":
                         for utxt, uval in (("1", True), ("0", False)):
                             mreq.append("mw %d %s %s %d %s" % (availc, gtxt, utxt, int(safe), nd))
-                            mwant.append(("wrapper-container", tag,
-                                          _canon_any(lambda: cyclecount.rainflow(obj, gval, uval))))
+                            mwant.append(("wrapper-container", tag, _thunk(cyclecount.rainflow, obj, gval, uval)))
                         continue
                     mreq.append("me %s %s %d %s" % ("py" if name == "py" else "c", gtxt, int(safe), nd))
-                    mwant.append(("entry-container-" + name, tag, _canon_any(lambda: fn(obj, gval))))
+                    mwant.append(("entry-container-" + name, tag, _thunk(fn, obj, gval)))
                 greq.append("ge %s %s" % (gtxt, nd))
-                gwant.append(("generated-py-container", tag, _canon_any(lambda: py_rain.rainflow(obj, gval))))
+                gwant.append(("generated-py-container", tag, _thunk(py_rain.rainflow, obj, gval)))
     # (d) call sequences: one session on one set of modules; every call must be what it is on its own
     targets = [n for n in impls if n != "wrapper"] + ["wrapper"]
     for sess in range(ctx.pick(40, 400)):
@@ -655,13 +661,18 @@ def _streams_float(ctx, impls, cases):
             tag = {"seq": [int(v) for v in x], "scale": 1, "session": list(hist)}
             if t == "wrapper":
                 mreq.append("mw %d %s %s 1 %s" % (availc, gopt[0], "-" if up is None else str(int(up)), nd))
-                mwant.append(("call-sequence-wrapper", tag, _canon_any(_call_with(cyclecount.rainflow, x, gopt, up))))
+                mwant.append(("call-sequence-wrapper", tag, _call_with(cyclecount.rainflow, x, gopt, up)))
             else:
                 mreq.append("me %s %s 1 %s" % ("py" if t == "py" else "c", gopt[0], nd))
-                mwant.append(("call-sequence-" + t, tag, _canon_any(_call_with(impls[t], x, gopt))))
+                mwant.append(("call-sequence-" + t, tag, _call_with(impls[t], x, gopt)))
             if gopt[0] == "-" and len(hist) > 1 and "g=1" in hist[-2]:
                 ctx.count("callseq:omitted-after-true")
         ctx.case(("sess", sess, tuple(hist)), nontrivial=True, branch="callseq:session")
+    # the calls on the real code are made in forked children, in order (a session's calls share one set of modules
+    # unless a chunk boundary falls between them): a mutation that corrupts memory is a result, not the end of the check
+    vals = isolated_map(lambda w: _canon_any(w[2]), mwant + gwant, chunk=3000)
+    mwant = [(w[0], w[1], v) for w, v in zip(mwant, vals[:len(mwant)])]
+    gwant = [(w[0], w[1], v) for w, v in zip(gwant, vals[len(mwant):])]
     # ask the drivers
     mrep = ctx.driver("C05").ask(mreq)
     try:
@@ -1004,6 +1015,8 @@ def search(ctx, hints):
     for case, r in zip(cases, res):
         ctx.count("oracle-cases")
         if isinstance(r, str):
+            if sum(1 for g in ctx.failures if g["family"] == "crash") >= 4:
+                continue
             ctx.fail("crash", "the compiled routine crashes the interpreter (%s)" % r,
                      {"seq": list(case[0]), "scale": case[1]}, r, "a cycle table")
         else:
